@@ -335,3 +335,134 @@ mutant('C15', 'motor-current-law-changed-under-rule', DC, "(self.driving_torque/
 benign('C15', 'limit-half-factor', SLC, "            return 1/2*(", "            return 0.5*(")
 benign('C15', 'reach-rename', RA, "regime_angular_position_error", "static_err")
 benign('C15', 'timer-rewritten-end', TM, "((current_time - self.start_time) <= self.duration)", "(current_time <= self.start_time + self.duration)")
+
+SV = 'gearpy/solver.py'
+PT = 'gearpy/powertrain.py'
+PIPE = """        self._compute_angular_position_and_speed()
+        self._check_powertrain_is_locked()
+        if self.__powertrain_is_locked:
+            self._compute_locked_powertrain_angular_speed_and_acceleration()
+        self._compute_load_torque()
+        self._compute_motor_control(motor_control=motor_control)
+        self._compute_driving_torque()
+        self._compute_torque()
+        if not self.__powertrain_is_locked:
+            self._compute_angular_acceleration()
+        self._compute_force()
+        self._compute_stress()
+        self._compute_electric_current()
+        self._update_time_variables()
+"""
+# ------------------------------------------------------------------------------------------ C01
+mutant('C01', 'speed-ratio-inverted', SV, "            gear_ratio*self.__powertrain.elements[i + 1].angular_speed", "            1/gear_ratio*self.__powertrain.elements[i + 1].angular_speed", 'C01.formula.speed')
+mutant('C01', 'ratio-of-upstream-element', SV, "            gear_ratio = self.__powertrain.elements[i + 1].master_gear_ratio\n            self._transmit_angular_position", "            gear_ratio = self.__powertrain.elements[i].master_gear_ratio\n            self._transmit_angular_position", 'C01.formula')
+mutant('C01', 'speed-gets-position', SV, "            gear_ratio*self.__powertrain.elements[i + 1].angular_speed", "            gear_ratio*self.__powertrain.elements[i + 1].angular_position", 'C01')
+mutant('C01', 'position-sum-not-product', SV, "            gear_ratio*self.__powertrain.elements[i + 1].angular_position", "            gear_ratio + self.__powertrain.elements[i + 1].angular_position", 'C01')
+mutant('C01', 'motor-skipped', SV, "        for i in range(len(self.__powertrain.elements) - 2, -1, -1):", "        for i in range(len(self.__powertrain.elements) - 2, 0, -1):", 'C01.coverage', nth=0)
+mutant('C01', 'starts-one-too-low', SV, "        for i in range(len(self.__powertrain.elements) - 2, -1, -1):", "        for i in range(len(self.__powertrain.elements) - 3, -1, -1):", 'C01.coverage', nth=1)
+mutant('C01', 'ascending-walk', SV, "        for i in range(len(self.__powertrain.elements) - 2, -1, -1):", "        for i in range(0, len(self.__powertrain.elements) - 1):", 'C01.order', nth=0)
+mutant('C01', 'acceleration-not-propagated', SV, "            self._transmit_angular_acceleration(gear_ratio=gear_ratio, i=i)", "            pass", 'C01.formula.acceleration')
+mutant('C01', 'clamp-skips-motor', SV, "        for element in self.__powertrain.elements:\n            element.angular_speed = NULL_ANGULAR_SPEED", "        for element in self.__powertrain.elements[1:]:\n            element.angular_speed = NULL_ANGULAR_SPEED", 'C01.clamp')
+mutant('C01', 'clamp-forgets-acceleration', SV, "            element.angular_speed = NULL_ANGULAR_SPEED\n            element.angular_acceleration = NULL_ANGULAR_ACCELERATION", "            element.angular_speed = NULL_ANGULAR_SPEED", 'C01')
+mutant('C01', 'record-before-propagation', SV, PIPE, PIPE.replace("        self._update_time_variables()\n", "").replace("        self._compute_angular_position_and_speed()\n", "        self._update_time_variables()\n        self._compute_angular_position_and_speed()\n"), 'C01.order')
+mutant('C01', 'integration-after-propagation', SV, "            self._time_integration(time_discretization=time_discretization)\n            self._compute_powertrain_variables(motor_control=motor_control)", "            self._compute_powertrain_variables(motor_control=motor_control)\n            self._time_integration(time_discretization=time_discretization)", 'C01.order')
+mutant('C01', 'recorder-appends-wrong-field', MB, "self.__time_variables['angular speed'].append(self.__angular_speed)", "self.__time_variables['angular speed'].append(self.__angular_position)", 'C01.recorded')
+benign('C01', 'product-order', SV, "            gear_ratio*self.__powertrain.elements[i + 1].angular_speed", "            self.__powertrain.elements[i + 1].angular_speed*gear_ratio")
+benign('C01', 'reversed-range', SV, "        for i in range(len(self.__powertrain.elements) - 2, -1, -1):", "        for i in reversed(range(len(self.__powertrain.elements) - 1)):", nth=0)
+benign('C01', 'inline-helper', SV, "            self._transmit_angular_speed(gear_ratio=gear_ratio, i=i)", "            self.__powertrain.elements[i].angular_speed = gear_ratio*self.__powertrain.elements[i + 1].angular_speed")
+
+# ------------------------------------------------------------------------------------------ C02
+mutant('C02', 'driving-divides-efficiency', SV, "                self.__powertrain.elements[i - 1].driving_torque * \\\n                self.__powertrain.elements[i].master_gear_efficiency * \\", "                self.__powertrain.elements[i - 1].driving_torque / \\\n                self.__powertrain.elements[i].master_gear_efficiency * \\", 'C02.driving')
+mutant('C02', 'load-efficiency-dropped', SV, "                self.__powertrain.elements[i].load_torque / \\\n                self.__powertrain.elements[i].master_gear_efficiency / \\\n", "                self.__powertrain.elements[i].load_torque / \\\n", 'C02.load')
+mutant('C02', 'load-ratio-multiplied', SV, "                self.__powertrain.elements[i].master_gear_efficiency / \\\n                self.__powertrain.elements[i].master_gear_ratio", "                self.__powertrain.elements[i].master_gear_efficiency * \\\n                self.__powertrain.elements[i].master_gear_ratio", 'C02.load')
+mutant('C02', 'load-previous-instant-time', SV, "                            time=self.__powertrain.time[-1],", "                            time=self.__powertrain.time[-2],", 'C02.load-call')
+mutant('C02', 'load-args-swapped', SV, "                            angular_position=self.__powertrain.elements[i].\n                            angular_position,\n                            angular_speed=self.__powertrain.elements[i].\n                            angular_speed", "                            angular_position=self.__powertrain.elements[i].\n                            angular_speed,\n                            angular_speed=self.__powertrain.elements[i].\n                            angular_position", 'C02.load-call')
+mutant('C02', 'load-state-of-driver', SV, "                            angular_speed=self.__powertrain.elements[i].\n                            angular_speed", "                            angular_speed=self.__powertrain.elements[i - 1].\n                            angular_speed", 'C02.load-call')
+mutant('C02', 'load-before-clamp', SV, PIPE, PIPE.replace("        self._compute_load_torque()\n", "").replace("        self._check_powertrain_is_locked()\n", "        self._compute_load_torque()\n        self._check_powertrain_is_locked()\n"), 'C02.order')
+mutant('C02', 'control-after-driving-torque', SV, "        self._compute_motor_control(motor_control=motor_control)\n        self._compute_driving_torque()\n", "        self._compute_driving_torque()\n        self._compute_motor_control(motor_control=motor_control)\n", 'C02.order')
+mutant('C02', 'net-is-sum', SV, "            element.torque = element.driving_torque - element.load_torque", "            element.torque = element.driving_torque + element.load_torque", 'C02.net')
+mutant('C02', 'net-skips-motor', SV, "        for element in self.__powertrain.elements:\n            element.torque = ", "        for element in self.__powertrain.elements[1:]:\n            element.torque = ", 'C02.net')
+mutant('C02', 'driving-starts-at-2', SV, "        for i in range(1, len(self.__powertrain.elements)):", "        for i in range(2, len(self.__powertrain.elements)):", 'C02.driving')
+mutant('C02', 'load-not-typechecked', SV, "                    if not isinstance(external_torque, Torque):", "                    if False:", 'C02.load-call')
+mutant('C02', 'load-skips-last', SV, "        for i in range(len(self.__powertrain.elements) - 1, 0, -1):", "        for i in range(len(self.__powertrain.elements) - 2, 0, -1):", 'C02')
+mutant('C02', 'net-before-load', SV, "        self._compute_load_torque()\n        self._compute_motor_control(motor_control=motor_control)\n        self._compute_driving_torque()\n        self._compute_torque()\n", "        self._compute_motor_control(motor_control=motor_control)\n        self._compute_driving_torque()\n        self._compute_torque()\n        self._compute_load_torque()\n", 'C02.order')
+benign('C02', 'driving-factors-reordered', SV, "                self.__powertrain.elements[i - 1].driving_torque * \\\n                self.__powertrain.elements[i].master_gear_efficiency * \\\n                self.__powertrain.elements[i].master_gear_ratio", "                self.__powertrain.elements[i].master_gear_ratio * \\\n                self.__powertrain.elements[i - 1].driving_torque * \\\n                self.__powertrain.elements[i].master_gear_efficiency")
+benign('C02', 'load-single-division', SV, "                self.__powertrain.elements[i].load_torque / \\\n                self.__powertrain.elements[i].master_gear_efficiency / \\\n                self.__powertrain.elements[i].master_gear_ratio", "                self.__powertrain.elements[i].load_torque / \\\n                (self.__powertrain.elements[i].master_gear_efficiency *\n                 self.__powertrain.elements[i].master_gear_ratio)")
+benign('C02', 'force-before-acceleration', SV, "        if not self.__powertrain_is_locked:\n            self._compute_angular_acceleration()\n        self._compute_force()\n", "        self._compute_force()\n        if not self.__powertrain_is_locked:\n            self._compute_angular_acceleration()\n")
+
+# ------------------------------------------------------------------------------------------ C03
+mutant('C03', 'inertia-ratio-squared', SV, "            self.__powertrain_inertia_moment *= element.master_gear_ratio\n", "            self.__powertrain_inertia_moment *= element.master_gear_ratio**2\n", 'C03.inertia')
+mutant('C03', 'inertia-own-term-missing', SV, "            self.__powertrain_inertia_moment += element.inertia_moment\n", "", 'C03.inertia')
+mutant('C03', 'inertia-add-then-multiply', SV, "            self.__powertrain_inertia_moment *= element.master_gear_ratio\n            self.__powertrain_inertia_moment += element.inertia_moment\n", "            self.__powertrain_inertia_moment += element.inertia_moment\n            self.__powertrain_inertia_moment *= element.master_gear_ratio\n", 'C03.inertia')
+mutant('C03', 'inertia-loop-from-2', SV, "        for element in self.__powertrain.elements[1:]:\n            self.__powertrain_inertia_moment", "        for element in self.__powertrain.elements[2:]:\n            self.__powertrain_inertia_moment", 'C03.inertia')
+mutant('C03', 'inertia-starts-from-last', SV, "            self.__powertrain.elements[0].inertia_moment\n        for element", "            self.__powertrain.elements[-1].inertia_moment\n        for element", 'C03.inertia')
+mutant('C03', 'inertia-only-fresh', SV, "        self._compute_powertrain_inertia()\n        if self.__powertrain.time:\n            initial_time = self.__powertrain.time[-1]\n        else:\n", "        if self.__powertrain.time:\n            initial_time = self.__powertrain.time[-1]\n        else:\n            self._compute_powertrain_inertia()\n", 'C03.inertia')
+mutant('C03', 'position-before-speed', SV, """        self.__powertrain.elements[-1].angular_speed += \\
+            self.__powertrain.elements[-1].angular_acceleration * \\
+            time_discretization
+        self.__powertrain.elements[-1].angular_position += \\
+            self.__powertrain.elements[-1].angular_speed*time_discretization""", """        self.__powertrain.elements[-1].angular_position += \\
+            self.__powertrain.elements[-1].angular_speed*time_discretization
+        self.__powertrain.elements[-1].angular_speed += \\
+            self.__powertrain.elements[-1].angular_acceleration * \\
+            time_discretization""", 'C03.euler')
+mutant('C03', 'speed-update-half-dt', SV, "            self.__powertrain.elements[-1].angular_acceleration * \\\n            time_discretization", "            self.__powertrain.elements[-1].angular_acceleration * \\\n            time_discretization*0.5", 'C03.euler')
+mutant('C03', 'integrates-with-duration', SV, "            self._time_integration(time_discretization=time_discretization)", "            self._time_integration(time_discretization=simulation_time)", 'C03.euler')
+mutant('C03', 'integrates-motor', SV, "        self.__powertrain.elements[-1].angular_position += \\\n            self.__powertrain.elements[-1].angular_speed*time_discretization", "        self.__powertrain.elements[0].angular_position += \\\n            self.__powertrain.elements[0].angular_speed*time_discretization", 'C03')
+mutant('C03', 'acceleration-uses-driving-torque', SV, "            self.__powertrain.elements[-1].torque / \\\n            self.__powertrain_inertia_moment", "            self.__powertrain.elements[-1].driving_torque / \\\n            self.__powertrain_inertia_moment", 'C03.eom')
+mutant('C03', 'acceleration-uses-motor-inertia', SV, "            self.__powertrain.elements[-1].torque / \\\n            self.__powertrain_inertia_moment", "            self.__powertrain.elements[-1].torque / \\\n            self.__powertrain.elements[0].inertia_moment", 'C03.eom')
+mutant('C03', 'acceleration-while-locked', SV, "        if not self.__powertrain_is_locked:\n            self._compute_angular_acceleration()", "        self._compute_angular_acceleration()", 'C03')
+mutant('C03', 'fresh-start-integrates', SV, "            self.__powertrain.update_time(initial_time)\n            self._compute_powertrain_variables(motor_control=motor_control)", "            self.__powertrain.update_time(initial_time)\n            self._time_integration(time_discretization=time_discretization)\n            self._compute_powertrain_variables(motor_control=motor_control)", 'C03.euler')
+benign('C03', 'inertia-one-statement', SV, "            self.__powertrain_inertia_moment *= element.master_gear_ratio\n            self.__powertrain_inertia_moment += element.inertia_moment\n", "            self.__powertrain_inertia_moment = element.inertia_moment + \\\n                self.__powertrain_inertia_moment*element.master_gear_ratio\n")
+benign('C03', 'explicit-speed-update', SV, "        self.__powertrain.elements[-1].angular_speed += \\\n            self.__powertrain.elements[-1].angular_acceleration * \\\n            time_discretization", "        self.__powertrain.elements[-1].angular_speed = \\\n            self.__powertrain.elements[-1].angular_speed + \\\n            time_discretization*self.__powertrain.elements[-1].angular_acceleration" if False else "        self.__powertrain.elements[-1].angular_speed = \\\n            self.__powertrain.elements[-1].angular_speed + \\\n            self.__powertrain.elements[-1].angular_acceleration * \\\n            time_discretization")
+
+# ------------------------------------------------------------------------------------------ C11
+mutant('C11', 'step-count-truncated', SV, "        simulation_steps = round(simulation_time/time_discretization)", "        simulation_steps = int(simulation_time/time_discretization)", 'C11.grid')
+mutant('C11', 'step-count-raw-values', SV, "        simulation_steps = round(simulation_time/time_discretization)", "        simulation_steps = round(simulation_time.value/time_discretization.value)", 'C11.grid')
+mutant('C11', 'k-from-zero', SV, "        for k in range(1, simulation_steps + 1):", "        for k in range(simulation_steps):", 'C11.grid')
+mutant('C11', 'one-step-too-many', SV, "        for k in range(1, simulation_steps + 1):", "        for k in range(1, simulation_steps + 2):", 'C11.grid')
+mutant('C11', 'instant-from-raw-values', SV, "                initial_time + k*time_discretization\n", "                Time(value=initial_time.value + k*time_discretization.value, unit=time_discretization.unit)\n", 'C11.grid')
+multi('C11', 'float-arange (pre-fix shape)', 'mutant', [
+    (SV, "from typing import Optional\n", "from typing import Optional\nimport numpy as np\n"),
+    (SV, """        simulation_steps = round(simulation_time/time_discretization)
+        for k in range(1, simulation_steps + 1):
+
+            self.__powertrain.update_time(
+                initial_time + k*time_discretization
+            )""", """        final_time = initial_time + simulation_time + time_discretization
+        for k in np.arange(
+            initial_time.value + time_discretization.value,
+            final_time.value,
+            time_discretization.value
+        ):
+
+            self.__powertrain.update_time(
+                Time(value=float(k), unit=time_discretization.unit)
+            )""")], 'C11.grid')
+mutant('C11', 'time-zero-missing', SV, "            self.__powertrain.update_time(initial_time)\n", "", 'C11')
+mutant('C11', 'continuation-duplicates-start', SV, "            initial_time = self.__powertrain.time[-1]\n", "            initial_time = self.__powertrain.time[-1]\n            self.__powertrain.update_time(initial_time)\n", 'C11.once')
+mutant('C11', 'append-after-integration', SV, """            self.__powertrain.update_time(
+                initial_time + k*time_discretization
+            )
+            self._time_integration(time_discretization=time_discretization)""", """            self._time_integration(time_discretization=time_discretization)
+            self.__powertrain.update_time(
+                initial_time + k*time_discretization
+            )""", 'C11.once')
+benign('C11', 'int-of-round', SV, "        simulation_steps = round(simulation_time/time_discretization)", "        simulation_steps = int(round(simulation_time/time_discretization))")
+benign('C11', 'zero-based-index', SV, "        for k in range(1, simulation_steps + 1):\n\n            self.__powertrain.update_time(\n                initial_time + k*time_discretization\n            )", "        for k in range(simulation_steps):\n\n            self.__powertrain.update_time(\n                initial_time + (k + 1)*time_discretization\n            )")
+
+# ------------------------------------------------------------------------------------------ C12
+mutant('C12', 'lock-flag-cleared-every-run', SV, "        self._compute_powertrain_inertia()\n        if self.__powertrain.time:", "        self._compute_powertrain_inertia()\n        self.__powertrain_is_locked = False\n        if self.__powertrain.time:", 'C12.cont')
+mutant('C12', 'lock-flag-never-cleared (pre-fix shape)', SV, "            self.__powertrain_is_locked = False\n            self.__powertrain.update_time(initial_time)", "            self.__powertrain.update_time(initial_time)", 'C12.state')
+mutant('C12', 'continuation-recomputes-first-instant', SV, "            initial_time = self.__powertrain.time[-1]\n", "            initial_time = self.__powertrain.time[-1]\n            self._compute_powertrain_variables(motor_control=motor_control)\n", 'C12.cont')
+mutant('C12', 'continuation-from-first-instant', SV, "            initial_time = self.__powertrain.time[-1]\n", "            initial_time = self.__powertrain.time[0]\n", 'C12.cont')
+mutant('C12', 'continuation-raw-start', SV, "                initial_time + k*time_discretization\n", "                Time(value=initial_time.value + k*time_discretization.value, unit=time_discretization.unit)\n", 'C12.unit')
+mutant('C12', 'reset-keeps-time', PT, "        self.__time = []\n\n        for element in self.elements:", "        for element in self.elements:", 'C12.reset')
+mutant('C12', 'reset-pwm-under-current-guard', PT, "                    ][0]\n                element.pwm = element.time_variables['pwm'][0]", "                    ][0]\n                    element.pwm = element.time_variables['pwm'][0]", 'C12.reset')
+mutant('C12', 'reset-speed-from-last-sample', PT, "element.time_variables['angular speed'][0]", "element.time_variables['angular speed'][-1]", 'C12.reset')
+mutant('C12', 'reset-torque-keys-swapped', PT, "            element.load_torque = element.time_variables['load torque'][0]", "            element.load_torque = element.time_variables['torque'][0]", 'C12.reset')
+mutant('C12', 'reset-shared-list', PT, "            for variable in element.time_variables.keys():\n                element.time_variables[variable] = []", "            element.time_variables.update(dict.fromkeys(element.time_variables, []))", 'C12.reset')
+mutant('C12', 'reset-skips-motor', PT, "        self.__time = []\n\n        for element in self.elements:", "        self.__time = []\n\n        for element in self.elements[1:]:", 'C12.reset')
+mutant('C12', 'reset-forgets-load-torque', PT, "            element.load_torque = element.time_variables['load torque'][0]\n", "", 'C12.reset')
+benign('C12', 'reset-restores-reordered', PT, "            element.torque = element.time_variables['torque'][0]\n            element.driving_torque = element.time_variables[\n                'driving torque'\n            ][0]\n", "            element.driving_torque = element.time_variables[\n                'driving torque'\n            ][0]\n            element.torque = element.time_variables['torque'][0]\n")
+benign('C12', 'reset-clear-via-values', PT, "            for variable in element.time_variables.keys():\n                element.time_variables[variable] = []", "            for samples in element.time_variables.values():\n                samples.clear()")
